@@ -28,10 +28,10 @@ m = {
     "setup_cmd": "cd /verif/checker && GOFLAGS=-mod=mod GOPROXY=off GOSUMDB=off GOWORK=off GOTOOLCHAIN=local CGO_ENABLED=0 go build -o /verif/bin/verifcheck .",
     "hooks": {"guard": "verif", "enable": "none needed: static analysis reads /repo's sources; no instrumentation is compiled in", "baseline_off_cmd": "for m in . config godev; do (cd /repo/$m && GOFLAGS=-mod=mod go test -vet=off -count=1 ./...); done", "source_commits": [], "add_only": True},
     "engines": [{"name": "verifcheck", "path": "/verif/checker", "serves_properties": [c["property_id"] for c in checks],
-                 "kind_free_text": "repository-specific static analyser (go/packages + go/types + go/ssa + VTA call graph, x/tools v0.29.0): guard facts by edge dominance, access-path terms, must-pass-through on CFGs, who-may-call / effect reachability, writer-reader table agreement, bounds and loop-progress obligations. Loads /repo's working tree on every run; executes nothing from it."}],
+                 "kind_free_text": "repository-specific static analyser (go/packages + go/types + go/ssa + VTA call graph, x/tools v0.29.0): guard facts by edge dominance, access-path terms, must-pass-through on CFGs, who-may-call / effect reachability, writer-reader table agreement, bounds and loop-progress obligations; new helper functions and struct types are expanded at source level before analysis (E14), renamed declarations are mapped back to reference names, and inventories of effects, cross-package calls, package-level state and field writes report code the rules have not looked at. Loads /repo's working tree on every run; executes nothing from it."}],
     "checks": checks,
     "not_applicable": na,
-    "notes": "All claims are level 'other': structural necessary conditions decided exhaustively over the code's paths by static analysis; the behavioural core that quantifies over schedules, crash points or numeric values is explicitly not claimed (DESIGN.md §6). Known findings: /verif/KNOWN_FINDINGS.jsonl. Exit 2 = infrastructure failure (no verdict).",
+    "notes": "All claims are level 'other': structural necessary conditions decided exhaustively over the code's paths by static analysis; the behavioural core that quantifies over schedules, crash points or numeric values is explicitly not claimed (DESIGN.md §6). Known findings: /verif/KNOWN_FINDINGS.jsonl. A rule that cannot resolve what it needs on a changed tree is a violated obligation Cnn.undecided (exit 1); exit 2 = the tree could not be loaded (no verdict). The thorough tier re-runs the quick rules on every build configuration and tests the checker both ways on the committed corpora (mutants, 266 independently seeded changes, 7 pools of behaviour-preserving or property-preserving patches; DESIGN.md §8).",
 }
 json.dump(m, open(os.path.join(HERE, "MANIFEST.json"), "w"), indent=1)
 print("claimed:", [c["property_id"] for c in checks], "n/a:", len(na))
